@@ -281,7 +281,7 @@ def check_written_back(wbhex, wbn, alt):
     received pings (optional) and, iff the connection is being closed, at most one final close frame."""
     data = bytes.fromhex(wbhex)
     if wbn != len(data):
-        return "server wrote %d bytes back (more than any pong/close reply)" % wbn
+        return "driver reported %d bytes written back but %d as hex" % (wbn, len(data))
     fr = parse_server_frames(data)
     if fr is None:
         return "bytes written back are not a sequence of unmasked frames: %s" % wbhex
@@ -369,7 +369,7 @@ def run_records(chk, exe, recs, rnd, *, label, singles, multis, k2_open, bytewis
                                        bytewise=bytewise):
             if seg_filter and not seg_filter(lab):
                 continue
-            scen.append({"h": [OPEN_OP] + segment_ops(rec, cuts)})
+            scen.append({"h": [OPEN_OP] + segment_ops(rec, cuts), "full": 1})
             meta.append((rec, lab, cuts))
     import time
     t0 = time.time()
